@@ -1,0 +1,45 @@
+//go:build verif
+
+package dnsmsg
+
+import (
+	"sync/atomic"
+
+	"github.com/IrineSistiana/mosproxy/internal/verifhook"
+)
+
+// Ownership tracking of pooled messages for the runtime verification build:
+// ReleaseMsg on a message that is already released (and not handed out
+// again by NewMsg) puts it into the pool twice, so two later requests
+// would share one message.
+
+const verifOn = true
+
+const (
+	verifMsgOwned    = 1
+	verifMsgReleased = 2
+)
+
+type verifMsgState struct {
+	s atomic.Uint32
+}
+
+var verifMsgNews, verifMsgReleases atomic.Uint64
+
+func VerifMsgCounters() (news, releases uint64) {
+	return verifMsgNews.Load(), verifMsgReleases.Load()
+}
+
+func verifNewMsg() *Msg {
+	m := msgPool.Get().(*Msg)
+	m.verifState.s.Store(verifMsgOwned)
+	verifMsgNews.Add(1)
+	return m
+}
+
+func verifReleaseMsg(m *Msg) {
+	verifMsgReleases.Add(1)
+	if old := m.verifState.s.Swap(verifMsgReleased); old == verifMsgReleased {
+		verifhook.Report("double-release", "dnsmsg.Msg released twice without being re-acquired")
+	}
+}
